@@ -190,6 +190,19 @@ func (c *ctx) cmpOps(name string) (ops [][2]string, deflt bool, hasDeflt bool) {
 	if sw == nil {
 		return
 	}
+	isReturnFalse := func(st ast.Stmt) bool {
+		r, ok := st.(*ast.ReturnStmt)
+		if !ok || len(r.Results) != 1 {
+			return false
+		}
+		id, ok := unparen(r.Results[0]).(*ast.Ident)
+		if !ok || id.Name != "false" {
+			return false
+		}
+		o := c.obj(id)
+		return o == nil || o.Parent() == types.Universe
+	}
+	defaultArmFalse := false
 	for _, cc := range caseClauses(sw.Body) {
 		for _, lab := range cc.List {
 			op, ok := strLit(lab)
@@ -206,19 +219,22 @@ func (c *ctx) cmpOps(name string) (ops [][2]string, deflt bool, hasDeflt bool) {
 			}
 			ops = append(ops, [2]string{op, tok})
 		}
-		if cc.List == nil { // a default arm inside the switch: shape not covered
-			ops = append(ops, [2]string{"default", "?"})
-		}
-	}
-	// the statement after the switch must be the last one and `return false`
-	if swIdx == len(fd.Body.List)-2 {
-		if r, ok := fd.Body.List[swIdx+1].(*ast.ReturnStmt); ok && len(r.Results) == 1 {
-			if id, ok := unparen(r.Results[0]).(*ast.Ident); ok && id.Name == "false" {
-				if o := c.obj(id); o == nil || o.Parent() == types.Universe {
-					return ops, false, true
-				}
+		if cc.List == nil {
+			// a default arm inside the switch: the same as a `return false` after the switch when that is all it
+			// does and the switch is the last statement; any other default arm is a shape not covered
+			if len(cc.Body) == 1 && isReturnFalse(cc.Body[0]) && swIdx == len(fd.Body.List)-1 {
+				defaultArmFalse = true
+			} else {
+				ops = append(ops, [2]string{"default", "?"})
 			}
 		}
+	}
+	if defaultArmFalse {
+		return ops, false, true
+	}
+	// the statement after the switch must be the last one and `return false`
+	if swIdx == len(fd.Body.List)-2 && isReturnFalse(fd.Body.List[swIdx+1]) {
+		return ops, false, true
 	}
 	return
 }
